@@ -29,6 +29,11 @@ CLAIMS = {
   text="Exploration: all ordered pairs [a,b] x [c,d] inside four 14-day (thorough 20-day) windows (leap day, year end, lower and upper limit of the calendar) are enumerated completely, and random forward ranges with day/month/year endpoints over years 1..9999 are drawn; the result must be one of the relations whose defining endpoint constraints (documentation diagram) hold, never Invalid, converse under operand swap, Equal on identical intervals, and exactly one simplified verdict must hold.",
   note="Trusted: 13 predicates over civil-day numbers and the converse table in checks/c06; operand convention taken from TestDateRange_Compare. Backward ranges are outside the statement.",
   design="6.6"),
+ "C12": dict(
+  technique="metamorphic PBT (rapid) + exhaustive string-pair enumeration: range, operand-swap symmetry, identity, monotonicity, shift invariance, neutral 0.5",
+  text="Exploration: all ordered string pairs over {a,b} up to length 9 (thorough 10) and {a,b,c} up to 5 (6) are enumerated; random name pairs (punctuation, case, digits, other scripts; independent or edited copies) x boost/prefix parameters, random date triples (all shapes, keywords, ranges) x MaxYears, and pairs of random family graphs x default/random options (weights summing to 1) are generated. Oracles: every score in [0,1] and not NaN, f(a,b)=f(b,a) for strings, dates, individuals, lists, families and surrounding similarity, 1 on identical names/dates, date similarity monotone in |Years difference|, 0 beyond MaxYears, unchanged under a 400-year shift, exactly 0.5 for the documented missing-information cases and list padding.",
+  note="Trusted: float tolerance 1e-12 only where the swap re-associates sums; a name is 'non-empty' when it has a letter or digit of any script.",
+  design="6.12"),
  "C05": dict(
   technique="exhaustive enumeration of all days/months/years against an integer calendar oracle + rapid PBT for ordering and min/max",
   text="Exploration, exhaustive on the finite domain the property names: every one of the 3,652,059 days, 119,988 month-year and 9,999 year-only dates is built (struct and text route) and its bounds, length, Years containment and day-to-day monotonicity are compared with an integer Gregorian calendar cross-checked against time.Date; random day pairs and DateNodes lists cover IsBefore/IsAfter/Minimum/Maximum. Exhaustive sub-checks are marked in evidence.",
